@@ -602,12 +602,12 @@ const AUDIT_FILE: &str = "/verif/audit/option_reads.json";
 /// (file, "group.field") -> number of reads, in the current /repo/src/parser/*.rs and src/html.rs.
 pub fn scan_option_reads() -> Result<BTreeMap<(String, String), u64>, String> {
     let mut out = BTreeMap::new();
-    let rd = std::fs::read_dir("/repo/src/parser").map_err(|e| e.to_string())?;
+    let rd = std::fs::read_dir(format!("{}/src/parser", crate::util::repo_root())).map_err(|e| e.to_string())?;
     let mut files: Vec<std::path::PathBuf> = rd.filter_map(|e| e.ok()).map(|e| e.path()).filter(|p| p.extension().map_or(false, |x| x == "rs")).collect();
     files.sort();
     // the HTML renderer is where tagfilter / header_ids act; any *parse* or *extension* option read
     // there is a consultation site too (render options are C18's business)
-    files.push(std::path::PathBuf::from("/repo/src/html.rs"));
+    files.push(std::path::PathBuf::from(format!("{}/src/html.rs", crate::util::repo_root())));
     for p in files {
         let name = p.file_name().unwrap().to_string_lossy().to_string();
         let renderer = name == "html.rs";
